@@ -354,7 +354,8 @@ def as_verdict(desc):
         fh = fh.reshape(ny - 1, -1) if fh.ndim == 1 else fh
         out.close("as/failure_exact", fh, ff[: ny - 1], rtol=rt, atol=1e-9)
     for c in ("CL", "CD", "fuelburn", "L_equals_W", "total_weight", "cg"):
-        out.close("as/" + c, ph.get_val(A + c), pf.get_val(A + c), rtol=rt, atol=1e-10)
+        # L_equals_W = (W - L) / W is a difference of two O(1) terms: its accuracy is rt of those terms, not of itself
+        out.close("as/" + c, ph.get_val(A + c), pf.get_val(A + c), rtol=rt, atol=rt if c == "L_equals_W" else 1e-10)
     cmh, cmf = ph.get_val(A + "CM"), pf.get_val(A + "CM")
     out.close("as/CM_pitch", cmh[1], cmf[1], rtol=rt, atol=1e-9)
     out.le("as/CM_roll_yaw_zero", max(abs(cmf[0]), abs(cmf[2])), 1e-7 * max(abs(cmf[1]), 1e-3))
